@@ -17,6 +17,8 @@ type progCase struct {
 	Patches []rig.Patch `json:"patches"`
 	Steps   int         `json:"steps"`
 	Top     bool        `json:"top,omitempty"`
+	// Fork: the program runs on CPUs created with InitFrom from the loaded ones
+	Fork bool `json:"fork,omitempty"`
 }
 
 func decodeProg(data []byte) (progCase, error) {
@@ -86,6 +88,12 @@ func runLockstep(c *progCase, synth *rig.Synth, impls []rig.CPU, stats *lockstep
 		cpu.SetMem(mems[i])
 		cpu.Load(c.Init)
 		alive[i] = true
+	}
+	if c.Fork {
+		impls = append([]rig.CPU(nil), impls...)
+		for i := range impls {
+			impls[i] = impls[i].Fork()
+		}
 	}
 	model := c.Init
 	ref.DoLog = true
